@@ -29,6 +29,9 @@ enum BodyKind {
     /// state (x when it is 0, x % 3 afterwards), so that the inner loop is stopped by its
     /// condition in one outer round and needs its full bound in the next
     NestedCondStop,
+    /// like `NestedInnerState`, with a shuffle inside the inner body: the block that reads the
+    /// inner state is not the inner loop's head, it waits on the state lock of its host
+    NestedShuffleInner,
 }
 
 #[derive(Clone, Copy, Debug, PartialEq, Eq)]
@@ -63,13 +66,15 @@ fn body(s: DS<i64>, state: IterationStateHandle<i64>, kind: BodyKind) -> DS<i64>
             );
             erase(probe(inner, PROBE_ID).map(read))
         }
-        BodyKind::NestedInnerState | BodyKind::NestedCondStop => {
+        BodyKind::NestedInnerState | BodyKind::NestedCondStop | BodyKind::NestedShuffleInner => {
+            let inner_shuffle = kind == BodyKind::NestedShuffleInner;
             let premap = kind == BodyKind::NestedCondStop;
             let s = erase(s.map(move |x| if premap && *st2.get() != 0 { x % 3 } else { x }));
             let inner = s.shuffle().replay(
                 3,
                 0i64,
-                |s, ist| {
+                move |s, ist| {
+                    let s: DS<i64> = if inner_shuffle { erase(s.shuffle()) } else { erase(s) };
                     s.map(move |x| {
                         let st = *ist.get();
                         log(Ev::Note("inner-state-read", vec![st, x]));
@@ -126,7 +131,7 @@ fn reference(input: &[i64], kind: BodyKind, lk: LoopKind, max: usize, limit: i64
                     vec![2 * cur.iter().map(|x| x + 1).sum::<i64>()]
                 }
             }
-            BodyKind::NestedInnerState => vec![inner_reference(&cur).1],
+            BodyKind::NestedInnerState | BodyKind::NestedShuffleInner => vec![inner_reference(&cur).1],
             BodyKind::NestedCondStop => {
                 let c2: Vec<i64> = cur.iter().map(|x| if st != 0 { x % 3 } else { *x }).collect();
                 vec![inner_reference(&c2).1]
@@ -206,7 +211,7 @@ fn scenario(lk: LoopKind, kind: BodyKind, input: Vec<i64>, max: usize, limit: i6
     let (states, fin) = reference(&input, kind, lk, max, limit);
     // every read of the inner state the sequential nested loop performs, over all outer rounds
     let mut inner_expected: Vec<(i64, i64)> = vec![];
-    if kind == BodyKind::NestedInnerState || kind == BodyKind::NestedCondStop {
+    if matches!(kind, BodyKind::NestedInnerState | BodyKind::NestedCondStop | BodyKind::NestedShuffleInner) {
         let mut cur = input.clone();
         for st in states.iter().take(states.len() - 1) {
             let c2: Vec<i64> = cur.iter().map(|x| if kind == BodyKind::NestedCondStop && *st != 0 { x % 3 } else { *x }).collect();
@@ -264,7 +269,7 @@ fn scenario(lk: LoopKind, kind: BodyKind, input: Vec<i64>, max: usize, limit: i6
                 _ => {}
             }
         }
-        if kind == BodyKind::NestedInnerState || kind == BodyKind::NestedCondStop {
+        if matches!(kind, BodyKind::NestedInnerState | BodyKind::NestedCondStop | BodyKind::NestedShuffleInner) {
             let mut got: Vec<(i64, i64)> = r
                 .log
                 .iter()
@@ -317,7 +322,7 @@ fn build(tier: Tier) -> Vec<Scenario> {
         vec![Layout::Local(1), Layout::Local(2), Layout::Local(3), Layout::Remote(vec![1, 1]), Layout::Remote(vec![2, 1])]
     };
     for lk in [LoopKind::Replay, LoopKind::Iterate] {
-        for kind in [BodyKind::MapState, BodyKind::ShuffleMapState, BodyKind::GroupReduceState, BodyKind::Nested, BodyKind::NestedInnerState, BodyKind::NestedCondStop] {
+        for kind in [BodyKind::MapState, BodyKind::ShuffleMapState, BodyKind::GroupReduceState, BodyKind::Nested, BodyKind::NestedInnerState, BodyKind::NestedCondStop, BodyKind::NestedShuffleInner] {
             for layout in &layouts {
                 let remote = layout.hosts() > 1;
                 for (input, max, limit) in [
